@@ -320,9 +320,38 @@ def mapping_keying(prog: Program) -> RuleResult:
         fn = prog.func(modname, fname)
         construct = f"{modname}:{fname}"
         comps = [n for n in walk_no_nested(fn) if isinstance(n, ast.DictComp)]
-        if len(comps) != 1:
-            raise AnalysisError(f"{construct}: expected one dict comprehension")
-        comp = comps[0]
+        rets = [n for n in walk_no_nested(fn) if isinstance(n, ast.Return) and isinstance(n.value, ast.DictComp)]
+        if len(rets) != 1:
+            raise AnalysisError(f"{construct}: expected one returned dict comprehension")
+        comp = rets[0].value
+        # name indices built beforehand: idx = {<f>(node.name): node for node in <tree>...}, directly or
+        # through a helper of the package that returns such a comprehension over its parameter
+        indices = {}
+        index_iter = {}
+        for stmt in walk_no_nested(fn):
+            if not (isinstance(stmt, ast.Assign) and len(stmt.targets) == 1 and isinstance(stmt.targets[0], ast.Name)):
+                continue
+            if isinstance(stmt.value, ast.DictComp):
+                indices[stmt.targets[0].id] = stmt.value
+                index_iter[stmt.targets[0].id] = stmt.value.generators[0].iter
+            elif isinstance(stmt.value, ast.Call) and len(stmt.value.args) == 1 and not stmt.value.keywords:
+                from ..resolve import resolve_callee
+
+                target = resolve_callee(prog, mod, stmt.value.func)
+                if target and isinstance(target[1], ast.FunctionDef):
+                    helper = target[1]
+                    hrets = [n for n in walk_no_nested(helper) if isinstance(n, ast.Return) and n.value is not None]
+                    hparams = func_params(helper)
+                    if (
+                        len(hrets) == 1
+                        and isinstance(hrets[0].value, ast.DictComp)
+                        and len(hparams) == 1
+                        and dotted(hrets[0].value.generators[0].iter) == hparams[0]
+                    ):
+                        indices[stmt.targets[0].id] = hrets[0].value
+                        index_iter[stmt.targets[0].id] = stmt.value.args[0]
+        if any(c is not comp and not any(c is i for i in indices.values()) for c in comps):
+            raise AnalysisError(f"{construct}: unexpected dict comprehension")
         gen = comp.generators[0]
         params = func_params(fn)
         ok_iter = (
@@ -350,18 +379,51 @@ def mapping_keying(prog: Program) -> RuleResult:
                     problems.append(f"value `{short(comp.value, 60)}` is not built from `{vvar}`")
         else:
             def lookup(expr, tree_param, var):
-                return (
+                if (
                     isinstance(expr, ast.BinOp)
                     and isinstance(expr.op, ast.BitAnd)
                     and dotted(expr.left) == tree_param
                     and dotted(expr.right) == var
-                )
+                ):
+                    return True
+                # idx[<f>(var)] with idx = {<g>(node.name): node for node in tree_param...}
+                if isinstance(expr, ast.Subscript) and isinstance(expr.value, ast.Name) and expr.value.id in indices:
+                    idx = indices[expr.value.id]
+                    igen = idx.generators[0]
+                    inode = dotted(igen.target)
+                    over_tree = tree_param in {n.id for n in ast.walk(index_iter[expr.value.id]) if isinstance(n, ast.Name)}
+                    if not (inode and over_tree and dotted(idx.value) == inode and len(idx.generators) == 1):
+                        raise AnalysisError(f"{construct}: name index `{expr.value.id}` has a shape that is not recognised")
+                    key_norm = _name_normaliser(idx.key, ast.Attribute(value=ast.Name(id=inode, ctx=ast.Load()), attr="name", ctx=ast.Load()))
+                    use_norm = _name_normaliser(expr.slice, ast.Name(id=var, ctx=ast.Load()))
+                    if key_norm is None or use_norm is None:
+                        raise AnalysisError(f"{construct}: name index `{expr.value.id}` is keyed / queried in a way that is not recognised")
+                    if key_norm or use_norm:
+                        problems.append(
+                            f"`{short(expr)}` resolves `{var}` through an index keyed by "
+                            f"`{short(idx.key)}`: names are matched after {sorted(set(key_norm + use_norm))}, which is not "
+                            "injective on node names (two uniquely named nodes can collapse)"
+                        )
+                    benign = all(isinstance(c, ast.Attribute) and c.attr == "name" and dotted(c.value) == inode for c in igen.ifs)
+                    if igen.ifs and not benign:
+                        problems.append(f"name index `{expr.value.id}` leaves nodes out ({short(igen.ifs[0])})")
+                    return True
+                return False
+
+            def wrong(expr, tree_param, var, what):
+                """A lookup of a recognisable shape that uses the wrong tree or the wrong name is a violation;
+                any other shape is not understood."""
+                if isinstance(expr, ast.BinOp) and isinstance(expr.op, ast.BitAnd):
+                    return f"{what} is `{short(expr)}`, not `{tree_param} & {var}`"
+                if dotted(expr) in (kvar, vvar):
+                    return f"{what} is the bare name `{short(expr)}`, not the node `{tree_param} & {var}`"
+                raise AnalysisError(f"{construct}: {what} `{short(expr)}` is not a recognised name lookup")
 
             if not lookup(comp.key, params[0], kvar):
-                problems.append(f"key is `{short(comp.key)}`, not `{params[0]} & {kvar}`")
+                problems.append(wrong(comp.key, params[0], kvar, "key"))
             if kind == "par2":
                 if not lookup(comp.value, params[1], vvar):
-                    problems.append(f"value is `{short(comp.value)}`, not `{params[1]} & {vvar}`")
+                    problems.append(wrong(comp.value, params[1], vvar, "value"))
             elif dotted(comp.value) != vvar:
                 problems.append(f"value is `{short(comp.value)}`, not `{vvar}`")
         if problems:
@@ -370,6 +432,258 @@ def mapping_keying(prog: Program) -> RuleResult:
             res.ok(construct, short(comp, 90))
     return res
 
+
+def _name_normaliser(expr: ast.AST, base: ast.AST):
+    """[] if `expr` is `base` itself, [m1, m2...] if it is base.m1().m2()... / str-calls on it, None otherwise."""
+    chain = []
+    cur = expr
+    while True:
+        if ast.dump(cur) == ast.dump(base):
+            return list(reversed(chain))
+        if isinstance(cur, ast.Call) and isinstance(cur.func, ast.Attribute) and not cur.keywords:
+            chain.append(cur.func.attr + "()")
+            cur = cur.func.value
+            continue
+        if isinstance(cur, ast.Call) and isinstance(cur.func, ast.Name) and len(cur.args) == 1 and cur.func.id == "str":
+            cur = cur.args[0]
+            continue
+        return None
+
+
+
+# ---------------------------------------------------------------------------
+# cost values are passed through verbatim
+
+
+def _truthiness_use(expr: ast.AST, is_raw) -> Optional[str]:
+    """'' if `expr` is the raw value; a description if the raw value is used as a truth value to choose
+    between itself and something else; None if the shape is not understood."""
+    if is_raw(expr):
+        return ""
+    if isinstance(expr, ast.BoolOp) and any(is_raw(v) for v in expr.values):
+        return f"`{short(expr)}` replaces a falsy value (0 is a legitimate unit cost) by another operand"
+    if isinstance(expr, ast.IfExp):
+        test = expr.test
+        while isinstance(test, ast.UnaryOp) and isinstance(test.op, ast.Not):
+            test = test.operand
+        if is_raw(test) and (is_raw(expr.body) or is_raw(expr.orelse)):
+            return f"`{short(expr)}` tests the value for truth: a cost of 0 takes the other branch"
+        if isinstance(test, ast.Compare) and len(test.ops) == 1 and isinstance(test.ops[0], (ast.Is, ast.IsNot)):
+            if is_raw(test.left) and isinstance(test.comparators[0], ast.Constant) and test.comparators[0].value is None:
+                if is_raw(expr.body) or is_raw(expr.orelse):
+                    return ""  # `v if v is not None else default` keeps every number
+    return None
+
+
+def cost_passthrough(prog: Program) -> RuleResult:
+    res = RuleResult(
+        "COST-PASSTHROUGH",
+        "unit costs travel verbatim from the command line into the input object, from a dictionary into the "
+        "input object and from the input object into its dictionary: the stored value is the value read, never "
+        "`value or default` / `x if value else y` (0 is a legitimate cost and is falsy), and no entry is filtered",
+    )
+    model = "model.reconciliation"
+    mmod = prog.module(model)
+    cls = prog.cls(model, "ReconciliationInput")
+    from ..resolve import method_def
+
+    # (1) to_dict: "costs": dict((event.name, value) for event, value in self.costs.items()) or a dict comprehension
+    to_dict = method_def(cls, "to_dict")
+    fd = method_def(cls, "_from_dict")
+    if to_dict is None or fd is None:
+        raise AnalysisError("ReconciliationInput.to_dict/_from_dict not found")
+    ret = _returned_dict(to_dict)
+    cost_val = None
+    for k, v in zip(ret.keys, ret.values):
+        if isinstance(k, ast.Constant) and k.value == "costs":
+            cost_val = v
+    if cost_val is None:
+        raise AnalysisError("ReconciliationInput.to_dict: no 'costs' entry")
+    comp = None
+    for sub in ast.walk(cost_val):
+        if isinstance(sub, (ast.DictComp, ast.GeneratorExp, ast.ListComp)):
+            comp = sub
+            break
+    if comp is None or len(comp.generators) != 1:
+        raise AnalysisError("ReconciliationInput.to_dict: 'costs' is not built by one comprehension")
+    gen = comp.generators[0]
+    if not (isinstance(gen.target, ast.Tuple) and len(gen.target.elts) == 2 and isinstance(gen.target.elts[1], ast.Name)):
+        raise AnalysisError("ReconciliationInput.to_dict: 'costs' comprehension does not unpack (event, value)")
+    vname = gen.target.elts[1].id
+    stored = comp.value if isinstance(comp, ast.DictComp) else (comp.elt.elts[1] if isinstance(comp.elt, ast.Tuple) and len(comp.elt.elts) == 2 else None)
+    if stored is None:
+        raise AnalysisError("ReconciliationInput.to_dict: 'costs' pairs not recognised")
+    _judge(res, f"{model}:ReconciliationInput.to_dict/costs", stored, lambda e: isinstance(e, ast.Name) and e.id == vname, gen.ifs, mmod)
+
+    # (2) _from_dict: for event, value in data["costs"].items(): ... costs[<enum>] = <value>
+    found = False
+    for loop in walk_no_nested(fd):
+        if not (isinstance(loop, ast.For) and isinstance(loop.target, ast.Tuple) and len(loop.target.elts) == 2):
+            continue
+        it = loop.iter
+        if not (isinstance(it, ast.Call) and isinstance(it.func, ast.Attribute) and it.func.attr == "items"):
+            continue
+        base = it.func.value
+        if not (isinstance(base, ast.Subscript) and isinstance(base.slice, ast.Constant) and base.slice.value == "costs"):
+            continue
+        if not isinstance(loop.target.elts[1], ast.Name):
+            raise AnalysisError("_from_dict: cost loop does not bind the value to a name")
+        vname2 = loop.target.elts[1].id
+        stores = [
+            n for n in ast.walk(loop)
+            if isinstance(n, ast.Assign) and len(n.targets) == 1 and isinstance(n.targets[0], ast.Subscript)
+            and dotted(n.targets[0].value) == "costs"
+        ]
+        if not stores:
+            raise AnalysisError("_from_dict: no store into the cost vector inside the cost loop")
+        for st in stores:
+            found = True
+            skipping = [g for g, _p in guards(fd, st) if vname2 in {n.id for n in ast.walk(g) if isinstance(n, ast.Name)}]
+            _judge(res, f"{model}:ReconciliationInput._from_dict/costs", st.value,
+                   lambda e, v=vname2: isinstance(e, ast.Name) and e.id == v, skipping, mmod)
+    if not found:
+        raise AnalysisError("_from_dict: loop over data['costs'].items() not found")
+
+    # (3) command line: data["costs"] = dict((kind, getattr(args, f"cost_{argname}")) for ...)
+    cmod = prog.module(CLI)
+    read_input = prog.func(CLI, "read_input")
+    site = None
+    for st in walk_no_nested(read_input):
+        if isinstance(st, ast.Assign) and len(st.targets) == 1 and isinstance(st.targets[0], ast.Subscript):
+            tgt = st.targets[0]
+            if isinstance(tgt.slice, ast.Constant) and tgt.slice.value == "costs":
+                site = st
+    if site is None:
+        raise AnalysisError("read_input: assignment of data['costs'] not found")
+    comp = next((c for c in ast.walk(site.value) if isinstance(c, (ast.DictComp, ast.GeneratorExp, ast.ListComp))), None)
+    if comp is None:
+        raise AnalysisError("read_input: data['costs'] is not built by a comprehension over the cost options")
+    stored = comp.value if isinstance(comp, ast.DictComp) else (comp.elt.elts[1] if isinstance(comp.elt, ast.Tuple) and len(comp.elt.elts) == 2 else None)
+    if stored is None:
+        raise AnalysisError("read_input: cost pairs not recognised")
+
+    def is_option(e: ast.AST) -> bool:
+        return (
+            isinstance(e, ast.Call)
+            and dotted(e.func) == "getattr"
+            and len(e.args) in (2, 3)
+            and dotted(e.args[0]) == "args"
+            and isinstance(e.args[1], ast.JoinedStr)
+        ) or (isinstance(e, ast.Subscript) and isinstance(e.value, ast.Call) and dotted(e.value.func) == "vars")
+
+    _judge(res, f"{CLI}:read_input/costs", stored, is_option, comp.generators[0].ifs, cmod)
+    return res
+
+
+def _judge(res: RuleResult, construct: str, stored: ast.AST, is_raw, filters, mod: Module) -> None:
+    verdict = _truthiness_use(stored, is_raw)
+    if verdict is None:
+        raise AnalysisError(f"{construct}: stored value `{short(stored)}` has a shape that is not recognised")
+    problems = []
+    if verdict:
+        problems.append(verdict)
+    for cond in filters:
+        problems.append(f"entries are skipped under `{short(cond)}`")
+    if problems:
+        res.fail(construct, "; ".join(problems), mod, stored)
+    else:
+        res.ok(construct, f"stores `{short(stored, 60)}` verbatim")
+
+
+# ---------------------------------------------------------------------------
+# class dispatch on the presence of a key
+
+
+def dispatch_keys(prog: Program) -> RuleResult:
+    res = RuleResult(
+        "DISPATCH-KEYS",
+        "wherever the command line chooses between a plain and a labelled model class by looking at the "
+        "parsed JSON object, the branch that calls `Cls.from_dict(data)` is only reachable when every top-level "
+        "key that Cls._from_dict reads unconditionally (beyond those of the alternative class) is present: the "
+        "guard contains `\"k\" in data` as a conjunct for each such key",
+    )
+    model = "model.reconciliation"
+    n = 0
+    for modname in ("cli.draw", "cli.reconcile"):
+        mod = prog.module(modname)
+        for qual, fn in prog.defs(modname).items():
+            if not isinstance(fn, ast.FunctionDef):
+                continue
+            calls = []
+            for call in walk_no_nested(fn):
+                if (
+                    isinstance(call, ast.Call)
+                    and isinstance(call.func, ast.Attribute)
+                    and call.func.attr == "from_dict"
+                    and isinstance(call.func.value, ast.Name)
+                    and len(call.args) == 1
+                ):
+                    target = resolve_name(prog, mod, call.func.value.id)
+                    if target and isinstance(target[1], ast.ClassDef):
+                        calls.append((call, target))
+            if len(calls) < 2:
+                continue
+            keysets = {}
+            for call, (cmod, cls) in calls:
+                keys, optional = _read_keys(prog, cmod, cls)
+                keysets[cls.name] = keys - optional
+            for call, (cmod, cls) in calls:
+                others = [v for k, v in keysets.items() if k != cls.name]
+                specific = keysets[cls.name] - set.intersection(*others) if others else set()
+                data_name = dotted(call.args[0])
+                construct = f"{modname}:{qual}/{cls.name}.from_dict"
+                n += 1
+                if not specific:
+                    res.ok(construct, "reads no key beyond those of the alternative class", nontrivial=False)
+                    continue
+                gs = guards(fn, call)
+                present = set()
+                for test, pol in gs:
+                    for lit, lpol in _conjunct_literals(test, pol):
+                        if (
+                            lpol
+                            and isinstance(lit, ast.Compare)
+                            and len(lit.ops) == 1
+                            and isinstance(lit.ops[0], ast.In)
+                            and isinstance(lit.left, ast.Constant)
+                            and dotted(lit.comparators[0]) == data_name
+                        ):
+                            present.add(lit.left.value)
+                missing = sorted(specific - present)
+                if missing:
+                    res.fail(
+                        construct,
+                        f"`{short(call)}` reads {missing} unconditionally but is reachable under "
+                        f"`{' and '.join(('' if p else 'not ') + '(' + short(t, 80) + ')' for t, p in gs) or 'no guard'}`, "
+                        "which does not guarantee these keys: an object without them raises KeyError",
+                        mod,
+                        call,
+                    )
+                else:
+                    res.ok(construct, f"guarded by presence of {sorted(specific)}")
+    if n < 4:
+        raise AnalysisError(f"DISPATCH-KEYS: only {n} dispatch sites found (expected 4: draw and reconcile)")
+    return res
+
+
+def _conjunct_literals(test: ast.AST, pol: bool):
+    """Literals that must hold when `test` has truth value `pol` (and: all when true; or: all negated when false)."""
+    while isinstance(test, ast.UnaryOp) and isinstance(test.op, ast.Not):
+        test, pol = test.operand, not pol
+    if isinstance(test, ast.BoolOp):
+        if isinstance(test.op, ast.And) and pol:
+            for v in test.values:
+                yield from _conjunct_literals(v, True)
+            return
+        if isinstance(test.op, ast.Or) and not pol:
+            for v in test.values:
+                yield from _conjunct_literals(v, False)
+            return
+        return
+    if isinstance(test, ast.Compare) and len(test.ops) == 1 and isinstance(test.ops[0], ast.NotIn):
+        yield ast.Compare(left=test.left, ops=[ast.In()], comparators=test.comparators), not pol
+        return
+    yield test, pol
 
 # ---------------------------------------------------------------------------
 # command line
@@ -979,6 +1293,8 @@ def cli_cost_source(prog: Program) -> RuleResult:
 
 
 RULES = {
+    "DISPATCH-KEYS": dispatch_keys,
+    "COST-PASSTHROUGH": cost_passthrough,
     "DICT-KEYS": dict_keys,
     "FIELDS-SERIALISED": fields_serialised,
     "TREE-WRITE-ARGS": tree_write_args,
